@@ -48,8 +48,43 @@ def model_skip(c):
     return not c.line.startswith("vmrun ")
 
 
+PAT_LITS = {
+    "int": ["0", "1", "2", "3", "7", "63", "64", "255"],
+    "char": ["'a'", "'b'", "'c'", "'d'"],
+    "byte": ["b'a'", "b'b'", "b'c'"],
+    "str": ['""', '"a"', '"ab"', '"b"'],
+    "bool": ["true", "false"],
+}
+
+
+def core_pattern(rng, kind):
+    lits = PAT_LITS[kind]
+    if kind != "bool" and rng.random() < 0.35:
+        a, b = rng.choice(lits), rng.choice(lits)
+        return f"{a}{rng.choice(['..', '..='])}{b}"
+    return rng.choice(lits)
+
+
+def core_match(rng, sub, kind, need_default, allow_empty):
+    """`match (scrutinee) { p | p => e, a..b => { e } … [_ => e] }` with all patterns of one kind (the compiler rejects mixed
+    kinds); without a `_` arm the parser appends `_ => null`"""
+    arms = []
+    for _ in range(rng.randint(1, 3)):
+        alts = " | ".join(core_pattern(rng, kind) for _ in range(rng.choice([1, 1, 2, 3])))
+        r = rng.random()
+        if allow_empty and r < 0.1:
+            arms.append(f"{alts} => {{ }}")
+        elif r < 0.4:
+            arms.append(f"{alts} => {{ {sub()} }}" + rng.choice(["", ","]))
+        else:
+            arms.append(f"{alts} => {sub()},")
+    if need_default or rng.random() < 0.5:
+        arms.append(f"_ => {sub()}" if rng.random() < 0.7 else f"_ => {{ {sub()} }}")
+    return f"match ({sub()}) {{ {' '.join(arms)} }}"
+
+
 def core_expr(rng, names, depth):
-    """an expression of the core fragment (lean/P2sh/Core): literals, unary, binary, && ||, if/else, globals"""
+    """an expression of the core fragment (lean/P2sh/Core): literals, unary, binary, && ||, if/else, match, globals"""
     if depth <= 0 or rng.random() < 0.25:
         r = rng.random()
         if r < 0.45:
@@ -75,6 +110,9 @@ def core_expr(rng, names, depth):
         if form < 0.9:
             return f"if {a()} {{ }} else {{ {a()} }}"
         return f"if {a()} {{ {a()} }} else if {a()} {{ {a()} }} else {{ {a()} }}"
+    if r < 0.93:
+        kind = rng.choice(["int", "int", "int", "int", "char", "byte", "str", "bool"])
+        return core_match(rng, a, kind, False, True)
     if names:
         return f"({rng.choice(names)} = {a()})"
     return a()
@@ -95,8 +133,12 @@ def core_int(rng, names, depth):
     if r < 0.8:
         cond = rng.choice([f"{a()} {rng.choice(['<', '<=', '>', '>=', '==', '!='])} {a()}", f"!({a()} < {a()})", f"({a()} < {a()}) && ({a()} != {a()})", f"({a()} > {a()}) || ({a()} == {a()})"])
         return f"if {cond} {{ {a()} }} else {{ {a()} }}"
-    if r < 0.9:
+    if r < 0.88:
         return f"({a()} && {a()})" if rng.random() < 0.5 else f"({a()} || {a()})"
+    if r < 0.95:
+        # integer scrutinee (often masked into the window of the patterns), integer arms, always a `_` arm
+        m = core_match(rng, a, "int", True, False)
+        return m if rng.random() < 0.5 else m.replace("match (", "match (7 & ", 1)
     if names:
         return f"({rng.choice(names)} = {a()})"
     return a()
